@@ -202,7 +202,10 @@ def do_replay(prop, mod, path):
         env["CARGO_TARGET_DIR"] = os.path.join(BUILD, "replay_target_hooks" if hooks else "replay_target")
         if hooks:
             env["RUSTFLAGS"] = "--cfg xet_verif"
-        rc, out = sh(["cargo", "test", "--offline", "--test", stem], cwd=os.path.join(VERIF, "replay"), env=env, timeout=3000,
+        release = "// replay-profile: release" in open(path).read()
+        if release:
+            env["HF_XET_TARGET_CHUNK_SIZE"] = "262144"
+        rc, out = sh(["cargo", "test", "--offline"] + (["--release"] if release else []) + ["--test", stem], cwd=os.path.join(VERIF, "replay"), env=env, timeout=3000,
                      log=os.path.join(LOGS, "replay_%s.log" % stem))
         failed = "test result: FAILED" in out
         log("replay %s: %s" % (stem, "violation reproduces" if failed else ("passes (no violation)" if "test result: ok" in out else "inconclusive rc=%s" % rc)))
